@@ -89,7 +89,6 @@ func (c *checker) spaceA2() {
 	}
 }
 
-
 // uniq guards against generating the same document twice under one descriptor.
 type uniq map[string]bool
 
@@ -101,7 +100,9 @@ func (u uniq) first(desc string) bool {
 	return true
 }
 
-func isContainerWrapper(w wrapper) bool { return !w.list && !w.leafy && !strings.Contains(w.name, ".dense") && !strings.Contains(w.name, ".sparse") }
+func isContainerWrapper(w wrapper) bool {
+	return !w.list && !w.leafy && !strings.Contains(w.name, ".dense") && !strings.Contains(w.name, ".sparse")
+}
 
 func pInner(b *builder) []*node { return one(b.leaf("p", "p")) }
 
